@@ -30,6 +30,7 @@ class AddGuard(Contract):
     """add_guard(cond): returns the old state; new guard = old guard AND cond; errors are ignored
     from here on iff they were before or cond is false; constants are multiplied by the guard."""
     name = "pysnark.runtime:add_guard"
+    assigns = GUARD_STATE
     vprops = ("C08",)
     fprops = ("C08",)
     cprops = sprops = eprops = ()
@@ -104,6 +105,7 @@ class AddGuard(Contract):
 @register
 class RestoreGuard(Contract):
     name = "pysnark.runtime:restore_guard"
+    assigns = GUARD_STATE
     vprops = ("C08",)
     fprops = ("C08",)
     cprops = sprops = eprops = tprops = ()
@@ -138,6 +140,7 @@ class Guarded(Contract):
     """guarded(cond)(fn)(*args): whatever fn does to the guard state, and however it exits,
     the state after the call is the state before it."""
     name = "pysnark.runtime:guarded.<locals>._guarded.<locals>.__guarded"
+    assigns = GUARD_STATE
     vprops = ("C08",)
     fprops = ("C08",)
     cprops = sprops = eprops = tprops = ()
